@@ -9,6 +9,7 @@ let variant = if Array.length Sys.argv > 1 then String.split_on_char ',' Sys.arg
 let fixed = List.mem "clip" variant
 let v_empty = List.mem "empty" variant
 let v_switch = List.mem "switch" variant
+let v_cache = List.mem "cache" variant    (* proposed notes/fix_C15_4.diff *)
 
 let zi s = z_of_int (int_of_string s)
 let zhex s = z_of_int (int_of_string ("0x" ^ s))
@@ -68,16 +69,37 @@ let obs_clients (outs : (int * upd_out) list) : string =
         (b2s c.shape) (b2s c.userich) (b2s c.posupd) (b2s c.changed) (b2s c.moved)
         (int_of_z c.clx) (int_of_z c.cly) (dump c.pic)) (conn ()))
 
+(* the library's built-in cursor is one static object for all screens of the process: its derived rich
+   form survives from screen to screen (dtag = bytes per pixel it was derived for) *)
+let dc = ref default_cursor
+let dtag : z option ref = ref None
+let cur_is_default = ref false
+let harvest () =
+  if !cur_is_default && !dtag = None && not v_cache then
+    (match !scr.scur with
+     | Some c when c.crich <> None -> dc := c; dtag := Some !fmt.bpp
+     | _ -> ())
+
+(* cursor that the application's displayHook installs at the head of the next update of client hk *)
+let hook : (int * cursor option) option ref = ref None
+
 (* run the event loop once and print the observation of a session op *)
 let pump_obs (tag : string) : unit =
   let l = conn () in
   let ks = List.map fst l in
-  match pump fixed v_empty !fmt !scr (List.map snd l) with
+  let pos k = let rec go i = function [] -> -1 | k' :: t -> if k' = k then i else go (i + 1) t in go 0 ks in
+  let h = match !hook with
+    | Some (k, c) when pos k >= 0 -> Some (nat_of_int (pos k), c)
+    | _ -> None in
+  match pump_rounds (nat_of_int 4) fixed v_empty !fmt h !scr (List.map snd l) [] with
   | None -> print_endline (tag ^ " ERR")
-  | Some (s', res) ->
+  | Some (((s', cls'), outs), consumed) ->
       scr := s';
-      put_back ks (List.map fst res);
-      let outs = List.map2 (fun k (_, o) -> (k, o)) ks res in
+      put_back ks cls';
+      if h <> None && consumed then hook := None;
+      (* a client is updated in at most one round: keep its entry that was sent *)
+      let outs = List.filter (fun (_, o) -> o.o_sent) outs in
+      let outs = List.map (fun (i, o) -> (List.nth ks (int_of_nat i), o)) outs in
       print_endline (tag ^ " app=" ^ dump !scr.sfb ^ obs_clients outs)
 
 let pos_in_conn k = let rec go i = function [] -> -1 | (k', _) :: t -> if k' = k then i else go (i + 1) t in go 0 (conn ())
@@ -88,8 +110,11 @@ let () =
     | [] -> ()
     | "case" :: _ ->
         scr := { sfb = empty_fb; scur = None; sx = Z0; sy = Z0; subuf = [] }; px := Z0; py := Z0;
-        Array.fill cls 0 maxcl None; print_endline line
+        Array.fill cls 0 maxcl None; hook := None;
+        dc := default_cursor; dtag := None; cur_is_default := false;     (* defcur cases run in a process of their own *)
+        print_endline line
     | ["screen"; w; h; b; rm; gm; bm; rs; gs; bs] ->
+        harvest (); cur_is_default := false;
         sw := int_of_string w; sh := int_of_string h;
         fmt := { bpp = zi b; rmax = zi rm; gmax = zi gm; bmax = zi bm; rshift = zi rs; gshift = zi gs; bshift = zi bs };
         scr := { sfb = { fw = zi w; fh = zi h; rows = List.init !sh (fun _ -> List.init !sw (fun _ -> Z0)) };
@@ -107,7 +132,18 @@ let () =
     | ["mask"; s] -> pending := { !pending with cmask = (if s = "-" then [] else hexbytes s) }; print_endline "mask ok"
     | "rich" :: toks -> pending := { !pending with crich = (if toks = ["-"] then None else Some (hexlist toks)) }; print_endline "rich ok"
     | ["alpha"; s] -> pending := { !pending with calpha = (if s = "-" then None else Some (hexbytes s)) }; print_endline "alpha ok"
+    | ["defcur"] ->
+        harvest ();
+        let c = use_shared v_cache !dtag !fmt !dc in
+        let l = conn () in
+        let (s', cl') = set_cursor !scr (List.map snd l) (Some c) in
+        scr := s'; put_back (List.map fst l) cl'; cur_is_default := true;
+        let ((fr, fg), fb_) = c.cfore and ((br, bg), bb) = c.cback in
+        Printf.printf "defcur %d %d %d %d %d %d %d %d %d %d %s %s\n" (int_of_z c.cw) (int_of_z c.ch) (int_of_z c.cxhot) (int_of_z c.cyhot)
+          (int_of_z fr) (int_of_z fg) (int_of_z fb_) (int_of_z br) (int_of_z bg) (int_of_z bb)
+          (match c.csource with Some s -> bytes_s s | None -> "-") (bytes_s c.cmask)
     | ["setcur"] | ["nocur"] ->
+        harvest (); cur_is_default := false;
         let nc = if List.hd (split_ws line) = "setcur" then Some !pending else None in
         let l = conn () in
         let (s', cl') = set_cursor !scr (List.map snd l) nc in
@@ -181,6 +217,7 @@ let () =
         let (s', cl') = fill !scr (List.map snd l) (zi x1) (zi y1) (zi x2) (zi y2) (zhex v) in
         scr := s'; put_back (List.map fst l) cl';
         pump_obs "fill"
+    | ["hookcur"; k] -> hook := Some (int_of_string k, Some !pending); print_endline "hookcur ok"
     | ["failwrite"; k; _] ->
         let k = int_of_string k in
         (match cls.(k) with
